@@ -57,11 +57,34 @@ pub fn ensure(ctx: &Ctx, slot: &SlotCfg) {
             ),
         );
     }
-    // in-process derive harness: a proc-macro package whose lib IS the repository's macro crate
+    // in-process derive harness: a proc-macro package whose lib IS the repository's macro crate,
+    // with the feature table and the dependencies of the repository's own manifest (so a change
+    // to what a feature switches on is seen)
+    let macros_manifest = std::fs::read_to_string(ctx.repo.join("macros/Cargo.toml")).unwrap_or_default();
+    let section = |name: &str| -> String {
+        let mut out = String::new();
+        let mut inside = false;
+        for line in macros_manifest.lines() {
+            if line.trim_start().starts_with('[') {
+                inside = line.trim() == format!("[{name}]");
+                continue;
+            }
+            if inside && !line.trim().is_empty() {
+                out.push_str(line);
+                out.push('\n');
+            }
+        }
+        out
+    };
+    let (mut features, mut deps) = (section("features"), section("dependencies"));
+    if features.is_empty() || deps.is_empty() {
+        features = "serde-compat = [\"termcolor\"]\nno-serde-warnings = []\n".into();
+        deps = "proc-macro2 = \"1\"\nquote = \"1\"\nsyn = { version = \"2.0.28\", features = [\"full\", \"extra-traits\"] }\ntermcolor = { version = \"1\", optional = true }\n".into();
+    }
     write_if_changed(
         &s.join("harness/Cargo.toml"),
         &format!(
-            "[package]\nname = \"harness\"\nversion = \"0.1.0\"\nedition = \"2021\"\n\n[lib]\nproc-macro = true\npath = \"{repo}/macros/src/lib.rs\"\n\n[features]\nserde-compat = [\"termcolor\"]\nno-serde-warnings = []\ndefault = [\"serde-compat\", \"no-serde-warnings\"]\n\n[dependencies]\nproc-macro2 = \"1\"\nquote = \"1\"\nsyn = {{ version = \"2.0.28\", features = [\"full\", \"extra-traits\"] }}\ntermcolor = {{ version = \"1\", optional = true }}\n\n[dev-dependencies]\nproptest = \"1\"\nserde_json = \"1\"\n"
+            "[package]\nname = \"harness\"\nversion = \"0.1.0\"\nedition = \"2021\"\n\n[lib]\nproc-macro = true\npath = \"{repo}/macros/src/lib.rs\"\n\n[features]\n{features}\n[dependencies]\n{deps}\n[dev-dependencies]\nproptest = \"1\"\nserde_json = \"1\"\n"
         ),
     );
     ensure_slots(ctx, slot);
@@ -151,8 +174,18 @@ pub fn bin_path(ctx: &Ctx, name: &str) -> std::path::PathBuf {
     ctx.subjects().join("target/debug").join(name)
 }
 
+/// the feature set each harness executable was *requested* with (the harness compares it with
+/// what the build really switched on)
+pub static HARNESS_REQUESTED: std::sync::Mutex<Vec<(std::path::PathBuf, bool, bool)>> = std::sync::Mutex::new(Vec::new());
+
 /// Build the in-process derive harness (a test binary) for a feature set; returns the executable.
 pub fn build_harness(ctx: &Ctx, serde_compat: bool, no_warnings: bool) -> std::path::PathBuf {
+    let exe = build_harness_inner(ctx, serde_compat, no_warnings);
+    HARNESS_REQUESTED.lock().unwrap().push((exe.clone(), serde_compat, no_warnings));
+    exe
+}
+
+fn build_harness_inner(ctx: &Ctx, serde_compat: bool, no_warnings: bool) -> std::path::PathBuf {
     let mut cmd = Command::new("cargo");
     cmd.current_dir(ctx.subjects())
         .args(["test", "--offline", "-p", "harness", "--no-run", "--message-format=json", "--no-default-features"]);
